@@ -20,6 +20,7 @@
 package main
 
 import (
+	"bufio"
 	"context"
 	"encoding/json"
 	"flag"
@@ -50,6 +51,7 @@ import (
 	"github.com/apache/skywalking-banyandb/banyand/metadata/schema"
 	"github.com/apache/skywalking-banyandb/banyand/verifharness/vlib"
 	"github.com/apache/skywalking-banyandb/pkg/bydbql"
+	"github.com/apache/skywalking-banyandb/pkg/logger"
 )
 
 // ---------------------------------------------------------------- schema (fake registry)
@@ -239,10 +241,18 @@ func render(s map[string]any) string {
 			b.WriteString(" " + vlib.Str(w, "join") + " ")
 		}
 		a := leaves(vlib.List(c, "args"))
-		if vlib.Str(c, "op") == "IN" {
-			b.WriteString(vlib.Str(c, "tag") + " IN (" + strings.Join(a, ", ") + ")")
-		} else {
-			b.WriteString(vlib.Str(c, "tag") + " " + vlib.Str(c, "op") + " " + a[0])
+		tag, op, many := vlib.Str(c, "tag"), vlib.Str(c, "op"), vlib.Str(c, "form") == "many"
+		switch {
+		case op == "IN":
+			b.WriteString(tag + " IN (" + strings.Join(a, ", ") + ")")
+		case op == "MATCH" && many:
+			b.WriteString(tag + " MATCH((" + strings.Join(a, ", ") + "))")
+		case op == "MATCH":
+			b.WriteString(tag + " MATCH(" + a[0] + ")")
+		case op == "HAVING" && many:
+			b.WriteString(tag + " HAVING (" + strings.Join(a, ", ") + ")")
+		default: // =, !=, >, HAVING with a single value
+			b.WriteString(tag + " " + op + " " + a[0])
 		}
 	}
 	if vlib.Str(s, "order") == "DESC" {
@@ -294,7 +304,7 @@ func specShape(sh map[string]any) shape {
 
 var opName = map[modelv1.Condition_BinaryOp]string{
 	modelv1.Condition_BINARY_OP_EQ: "=", modelv1.Condition_BINARY_OP_NE: "!=", modelv1.Condition_BINARY_OP_GT: ">",
-	modelv1.Condition_BINARY_OP_IN: "IN",
+	modelv1.Condition_BINARY_OP_IN: "IN", modelv1.Condition_BINARY_OP_MATCH: "MATCH", modelv1.Condition_BINARY_OP_HAVING: "HAVING",
 }
 
 func condName(c *modelv1.Condition) string {
@@ -554,6 +564,62 @@ func (s *syncRes) sample(x any) {
 	s.mu.Unlock()
 }
 
+// amplification: the spec treats a plain string as an opaque token, so the baseline string "b1" of a
+// behaviour may be replaced (in the parameters and in the literalised statement alike) by any string that
+// is neither a decimal integer nor a time expression; these are strings TLC cannot print reliably.
+var extraStrings = []string{
+	"\x00", "nul\x00mid", "ü-é-漢-😀", "\r\n", "\\", "'", "''", "\\'", "'\\", "\"", "\t;\v\f", "%s%d%!", "\u2028\u2029", "`x`", "--", "/*", "*/ ;",
+	"a\\", "\\n", "' OR ''='", "\\' OR 1=1 --", "?, ?", "?) OR (s = ?", "$1", ":p", strings.Repeat("a' ", 2000), "\ufeff", "\x7f", " lead and trail ",
+}
+
+func substitute(v any, from, to string) any {
+	switch x := v.(type) {
+	case map[string]any:
+		out := make(map[string]any, len(x))
+		for k, e := range x {
+			if k == "v" {
+				if sv, ok := e.(string); ok && sv == from {
+					out[k] = to
+					continue
+				}
+			}
+			out[k] = substitute(e, from, to)
+		}
+		return out
+	case []any:
+		out := make([]any, len(x))
+		for i, e := range x {
+			if sv, ok := e.(string); ok && sv == from {
+				out[i] = to
+			} else {
+				out[i] = substitute(e, from, to)
+			}
+		}
+		return out
+	}
+	return v
+}
+
+func mentions(v any, s string) bool {
+	switch x := v.(type) {
+	case map[string]any:
+		for _, e := range x {
+			if mentions(e, s) {
+				return true
+			}
+		}
+	case []any:
+		for _, e := range x {
+			if mentions(e, s) {
+				return true
+			}
+		}
+	case string:
+		return x == s
+	}
+	return false
+}
+
 var textOf sync.Map // rendered text -> canonical statement: the renderer must be injective
 
 func slotKinds(s map[string]any) string {
@@ -570,10 +636,13 @@ func slotKinds(s map[string]any) string {
 	for _, c := range vlib.List(vlib.Map(s, "w"), "conds") {
 		for _, a := range vlib.List(vlib.Rec(c), "args") {
 			if vlib.Str(vlib.Rec(a), "t") == "ph" {
-				if vlib.Str(vlib.Rec(c), "op") == "IN" {
-					k = append(k, "list")
-				} else {
+				switch op := vlib.Str(vlib.Rec(c), "op"); op {
+				case "=", "!=", ">":
 					k = append(k, "scalar")
+				case "IN":
+					k = append(k, "list")
+				default:
+					k = append(k, strings.ToLower(op)+"-"+vlib.Str(vlib.Rec(c), "form"))
 				}
 			}
 		}
@@ -599,6 +668,8 @@ type replayer struct {
 	res       *syncRes
 	cacheSize int
 	maxBytes  int
+	amplify   bool // also run every behaviour mentioning "b1" with each of extraStrings in its place
+	noBytes   bool // the spec was not given the byte costs: do not compare the byte count
 	shared    bool // one long-lived service per worker (stateless behaviours); the cache verdict is then not compared
 }
 
@@ -772,7 +843,7 @@ func (rp *replayer) behaviour(b vlib.Behaviour, svc, qsvc *lgrpc.VerifBydbQL) {
 			}
 		}
 		history = append(history, seen{text: text, params: ps, timeOp: timeOp, req: o1.req, rej: o1.rejected()})
-		if !wantRej && strings.Contains(pt, "str") {
+		if !wantRej && strings.Contains(vlib.Canon(pv), "'") { // written-out cases for the evidence: accepted hostile strings
 			rp.res.sample(map[string]any{"statement": text, "params": pv, "literalised": litText, "request": json.RawMessage(pj(o1.req))})
 		}
 		if !ok {
@@ -787,6 +858,7 @@ func (rp *replayer) cacheState(bid, step int, st, last map[string]any, cres stri
 	if want == "off" {
 		want = ""
 	}
+	rp.res.inc("cres_" + vlib.Str(last, "cres"))
 	if cres != want {
 		rp.res.violate(bid, step, "cache-verdict:"+want+"-vs-"+cres, "cache verdict %q, spec %q for `%s`", cres, want, render(vlib.Map(last, "stmt")))
 		return false
@@ -800,7 +872,7 @@ func (rp *replayer) cacheState(bid, step int, st, last map[string]any, cres stri
 		rp.res.violate(bid, step, "cache-content", "cache holds (oldest first) %q, spec %q", got, wantKeys)
 		return false
 	}
-	if int(svc.Bytes()) != vlib.Int(last, "bytes") {
+	if !rp.noBytes && int(svc.Bytes()) != vlib.Int(last, "bytes") {
 		rp.res.violate(bid, step, "cache-bytes", "cache accounts %d bytes, spec %d", svc.Bytes(), vlib.Int(last, "bytes"))
 		return false
 	}
@@ -853,15 +925,15 @@ func (rp *replayer) service(bid, step int, qsvc *lgrpc.VerifBydbQL, st map[strin
 	return true
 }
 
-func replay(in string, res *vlib.Result, cacheSize, maxBytes int, shared bool) {
-	bs, err := vlib.ReadBehaviours(in)
+func replay(in string, res *vlib.Result, cacheSize, maxBytes int, shared, noBytes, amplify bool) {
+	f, err := os.Open(in)
 	if err != nil {
 		res.Inconclusive = append(res.Inconclusive, err.Error())
 		return
 	}
-	rp := &replayer{res: &syncRes{r: res}, cacheSize: cacheSize, maxBytes: maxBytes, shared: shared}
-	res.Behaviours = len(bs)
-	ch := make(chan vlib.Behaviour, 256)
+	defer f.Close()
+	rp := &replayer{res: &syncRes{r: res}, cacheSize: cacheSize, maxBytes: maxBytes, shared: shared, noBytes: noBytes, amplify: amplify}
+	ch := make(chan []byte, 256) // raw ndjson lines: the workers decode them themselves
 	var wg sync.WaitGroup
 	for w := 0; w < runtime.NumCPU(); w++ {
 		wg.Add(1)
@@ -872,7 +944,12 @@ func replay(in string, res *vlib.Result, cacheSize, maxBytes int, shared bool) {
 				svc = lgrpc.VerifNewBydbQL(fakeRepo{}, 64, 0, []string{group})
 				qsvc = lgrpc.VerifNewBydbQL(fakeRepo{}, 64, 0, []string{group})
 			}
-			for b := range ch {
+			for line := range ch {
+				var b vlib.Behaviour
+				if uerr := json.Unmarshal(line, &b); uerr != nil {
+					rp.res.inconclusive("cannot decode a behaviour: %v", uerr)
+					continue
+				}
 				func() {
 					defer func() {
 						if r := recover(); r != nil {
@@ -882,15 +959,35 @@ func replay(in string, res *vlib.Result, cacheSize, maxBytes int, shared bool) {
 						}
 					}()
 					rp.behaviour(b, svc, qsvc)
+					if rp.amplify && len(b.States) > 0 && mentions(vlib.List(vlib.Map(b.States[len(b.States)-1], "last"), "params"), "b1") {
+						for j := 0; j < 3; j++ { // a rotating choice: every extra string meets every kind of statement over a run
+							x := extraStrings[(b.ID+j*11)%len(extraStrings)]
+							c := vlib.Behaviour{ID: b.ID}
+							for _, st := range b.States {
+								c.States = append(c.States, substitute(st, "b1", x).(map[string]any))
+							}
+							rp.res.inc("amplified_executions")
+							rp.behaviour(c, svc, qsvc)
+						}
+					}
 				}()
 			}
 		}()
 	}
-	for _, b := range bs {
-		ch <- b
+	sc := bufio.NewScanner(f)
+	sc.Buffer(make([]byte, 1<<20), 1<<28)
+	for sc.Scan() {
+		if len(sc.Bytes()) == 0 {
+			continue
+		}
+		res.Behaviours++
+		ch <- append([]byte(nil), sc.Bytes()...)
 	}
 	close(ch)
 	wg.Wait()
+	if sc.Err() != nil {
+		res.Inconclusive = append(res.Inconclusive, sc.Err().Error())
+	}
 }
 
 // cost reports, for every statement of the input, the bytes the cache accounts for it.
@@ -928,11 +1025,15 @@ func main() {
 	cacheSize := flag.Int("cachesize", 2, "count bound of the prepared cache")
 	maxBytes := flag.Int("maxbytes", 0, "byte bound of the prepared cache")
 	shared := flag.Bool("shared", false, "stateless behaviours: long-lived caches, cache verdicts not compared")
+	amplify := flag.Bool("amplify", false, "re-run behaviours with further hostile strings in place of the baseline string")
+	noBytes := flag.Bool("nobytes", false, "do not compare the accounted bytes")
 	flag.Parse()
+	// (the service logs every query with its native request at debug level)
+	_ = logger.Init(logger.Logging{Env: "prod", Level: "warn"})
 	res := vlib.NewResult()
 	switch *mode {
 	case "replay":
-		replay(*in, res, *cacheSize, *maxBytes, *shared)
+		replay(*in, res, *cacheSize, *maxBytes, *shared, *noBytes, *amplify)
 	case "cost":
 		cost(*in, res)
 	}
